@@ -301,7 +301,24 @@ func runEpochs(seed int64, n int, dir string) {
 	o.Close(map[string]any{"histories": histories})
 }
 
+// huge durations (per-history class): a year .. the largest time.Duration.  All engine arithmetic on them is big.Int or clamped.
+var epHugeDurations = []int64{365 * 86_400_000_000_000, 100 * 365 * 86_400_000_000_000, 1 << 62, 1<<63 - 2, 1<<63 - 1}
+
+// block times stay below the year 9000: the stored EpochInfo is a protobuf Timestamp (valid up to the year 9999)
+var epLatest = epNs(time.Date(9000, 1, 1, 0, 0, 0, 0, time.UTC))
+
 func epPickDur(g *Gen, base int64) int64 {
+	if base > 1<<55 {
+		switch g.Intn(5) {
+		case 0:
+			return base - 1
+		case 1:
+			return base/2 + g.r.Int63n(base/2)
+		case 2:
+			return epHugeDurations[g.Intn(len(epHugeDurations))]
+		}
+		return base
+	}
 	switch g.Intn(12) {
 	case 0:
 		return epDurations[g.Intn(len(epDurations))]
@@ -333,6 +350,16 @@ func epHistory(o *Out, g *Gen) {
 	now := epNs(time.Unix(int64(g.r.Int63n(4_102_444_800)), int64(g.Intn(1_000_000_000))))
 	height := int64(1 + g.Intn(1000))
 	baseDur := epDurations[g.Intn(len(epDurations))]
+	if g.Intn(100) < 8 {
+		baseDur = epHugeDurations[g.Intn(len(epHugeDurations))]
+		o.Count("class.duration.huge")
+	} else {
+		o.Count("class.duration.ordinary")
+	}
+	spanDur := baseDur // for offsets of start times
+	if spanDur > 1<<55 {
+		spanDur = 1 << 55
+	}
 	pEntry := []float64{0.15, 0.4, 0.7, 0.95}[g.Intn(4)]
 	pOog := []float64{0, 0, 0.003, 0.01, 0.04, 0.12}[g.Intn(6)]
 	o.Count(fmt.Sprintf("hist:pOog=%v", pOog))
@@ -347,17 +374,19 @@ func epHistory(o *Out, g *Gen) {
 	addTimer := func(malformed bool) {
 		id := epIDPool[g.Intn(len(epIDPool))]
 		dur := epPickDur(g, baseDur)
-		if g.Intn(40) == 0 {
-			dur = -dur // Validate only rejects 0
+		if g.Intn(40) == 0 && dur <= 1<<55 {
+			// Validate only rejects 0.  Not for the huge durations: a negative duration moves the epoch start back on every
+			// block, -292 years per block leaves the years 1..9999 of the stored protobuf Timestamp (setEpochInfo panics; not modelled)
+			dur = -dur
 		}
 		start := new(big.Int).Set(now)
 		switch g.Intn(8) {
 		case 0: // zero start time -> ctx block time
 			start = big.NewInt(0)
 		case 1, 2: // in the future: blocks before the start time
-			start.Add(start, big.NewInt(g.r.Int63n([]int64{4, 40}[g.Intn(2)]*baseDur+1)))
+			start.Add(start, big.NewInt(g.r.Int63n([]int64{4, 40}[g.Intn(2)]*spanDur+1)))
 		case 3: // far in the past (downtime / catch-up one epoch per block)
-			start.Sub(start, big.NewInt(g.r.Int63n(20*baseDur+1)))
+			start.Sub(start, big.NewInt(g.r.Int63n(20*spanDur+1)))
 		case 4:
 			start.Add(start, big.NewInt(int64(g.Intn(3))))
 		}
@@ -368,6 +397,9 @@ func epHistory(o *Out, g *Gen) {
 		case 0: // imported running timer, on the grid
 			started = true
 			curEpoch = int64(g.Intn(50))
+			if dur > 1<<55 || dur < -(1<<55) {
+				curEpoch = int64(g.Intn(4)) // keeps the imported epoch start inside the years 1..9999
+			}
 			if start.Sign() == 0 {
 				start = new(big.Int).Set(now)
 			}
@@ -479,6 +511,9 @@ func epHistory(o *Out, g *Gen) {
 			}
 		}
 		d := new(big.Int).Abs(f.dur).Int64()
+		if d > 1<<55 { // huge durations: ordinary steps are capped (the end of an epoch is reached by the special picks)
+			d = 1 << 55
+		}
 		var dt int64
 		dtKind := ""
 		end := new(big.Int).Add(f.curStart, f.dur)
@@ -491,7 +526,7 @@ func epHistory(o *Out, g *Gen) {
 				dt, dtKind, special = toEnd.Int64(), "exactly-at-end", true
 			}
 		case pick < 18:
-			if f.started && toEnd.Sign() >= 0 && toEnd.IsInt64() && toEnd.Int64() < 1<<61 {
+			if f.started && toEnd.Sign() >= 0 && toEnd.IsInt64() && toEnd.Int64() < 1<<63-1 {
 				dt, dtKind, special = toEnd.Int64()+1, "end+1ns", true
 			}
 		case pick < 23:
@@ -531,6 +566,9 @@ func epHistory(o *Out, g *Gen) {
 			if dt > 1<<55 {
 				dt = 1 << 55
 			}
+		}
+		if special && new(big.Int).Add(now, big.NewInt(dt)).Cmp(epLatest) > 0 {
+			dt, dtKind = 0, "equal"
 		}
 		o.Count("dt:" + dtKind)
 		now = new(big.Int).Add(now, big.NewInt(dt))
